@@ -254,7 +254,7 @@ class Report:
             print(f"KNOWN-FINDING: property={self.prop} rule={o['rule']} {o['key']} — {k.get('what_fails', o['detail'])}")
         replay = None
         if violations:
-            vdir = os.path.join(VERIF, "evidence", "violations")
+            vdir = os.path.join(VERIF, "evidence", "violations") if not os.environ.get("VERIF_NO_EVIDENCE") else "/tmp/fa-verif-violations"
             os.makedirs(vdir, exist_ok=True)
             replay = os.path.join(vdir, f"{self.prop}.json")
             with open(replay, "w") as f:
@@ -291,7 +291,7 @@ class Report:
             wall_s=round(wall, 3),
             violations=len(violations),
         )
-        if self.repo.root == "/repo" or os.environ.get("VERIF_WRITE_EVIDENCE"):
+        if (self.repo.root == "/repo" and not os.environ.get("VERIF_NO_EVIDENCE")) or os.environ.get("VERIF_WRITE_EVIDENCE"):
             os.makedirs(os.path.join(VERIF, "evidence"), exist_ok=True)
             with open(os.path.join(VERIF, "evidence", f"{self.prop}.json"), "w") as f:
                 json.dump(ev, f, indent=1, default=str)
